@@ -79,8 +79,16 @@ class HandshakeServer(Actor):
         self.steps = []          # (step name, qtype) in arrival order
         self.allow_types = allow_types
         self.dn_seq = 0
+        self.dn_frag = 0
         self.queries = []
         self.raw_seen = []
+        # data phase (off unless serve_down): the downstream half of a spec-conforming server
+        self.serve_down = False
+        self.down_queue = []
+        self.cur = None
+        self.cur_off = 0
+        self.sent = 0
+        self.down_fragments_sent = 0
 
     def step_of(self, text, q):
         c = text[:1].lower()
@@ -143,12 +151,45 @@ class HandshakeServer(Actor):
                 return raw[1:3], self.downenc
             return b"BADLEN", "T"
         if step in ("P", "D"):
+            ack = None
             if step == "D":
                 h = proto.parse_up_data_header(text)
                 b0 = 0x80 | (h["up_seq"] << 4) | h["up_frag"]
+                self.last_up = b0
+                ack = (h["dn_seq"], h["dn_frag"])
             else:
-                b0 = 0x80
-            return bytes([b0, (self.dn_seq & 7) << 5]), self.downenc
+                b0 = getattr(self, "last_up", 0x80)
+                try:
+                    raw = proto.BASE32.decode(text[1:])
+                    if len(raw) >= 2:
+                        ack = ((raw[1] >> 4) & 7, raw[1] & 15)
+                except Exception:
+                    pass
+            if not self.serve_down:
+                return bytes([b0, (self.dn_seq & 7) << 5]), self.downenc
+            # Downstream as doc/proto_00000502.txt describes it: packets are cut into fragments of the size the client set
+            # with 'N' ("payloads will be max (fragsize + 2) bytes"), numbered from 0, the last one flagged; the next
+            # fragment follows when the client's ack names the one in flight.
+            if self.cur is not None and self.sent > 0 and ack == (self.dn_seq & 7, self.dn_frag & 15):
+                self.cur_off += self.sent
+                self.sent = 0
+                if self.cur_off >= len(self.cur):
+                    self.cur = None
+                else:
+                    self.dn_frag += 1
+            if self.cur is None and self.down_queue:
+                self.cur = proto.deflate(self.down_queue.pop(0))
+                self.cur_off = 0
+                self.sent = 0
+                self.dn_seq = (self.dn_seq + 1) & 7
+                self.dn_frag = 0
+            if self.cur is None:
+                return bytes([b0, ((self.dn_seq & 7) << 5) | ((self.dn_frag & 15) << 1)]), self.downenc
+            chunk = self.cur[self.cur_off:self.cur_off + max(self.fragsize, 1)]
+            self.sent = len(chunk)
+            last = 1 if self.cur_off + len(chunk) >= len(self.cur) else 0
+            self.down_fragments_sent += 1
+            return bytes([b0, ((self.dn_seq & 7) << 5) | ((self.dn_frag & 15) << 1) | last]) + chunk, self.downenc
         return None, "T"
 
     def on_datagram(self, src, dst, data):
